@@ -8,7 +8,8 @@
 From Coq Require Import List Arith Lia Lra Reals Bool QArith.
 Open Scope bool_scope.
 Require Import QV.Common.Outcome QV.Common.AlignAlg QV.Common.AlignAlgFacts QV.Common.AlignAlgQuat QV.Common.AlignAlgR
-               QV.Gen.Quat QV.Model.Mill QV.Model.Kabsch QV.Proofs.Mill QV.Proofs.Kabsch QV.Proofs.KabschR QV.Proofs.KabschSurj.
+               QV.Gen.Quat QV.Model.Mill QV.Model.Kabsch QV.Proofs.Mill QV.Proofs.Kabsch QV.Proofs.KabschR QV.Proofs.KabschSurj
+               QV.Model.KabschPerm QV.Proofs.KabschPerm QV.Gen.KabschAlign QV.Proofs.KabschGen.
 Import ListNotations.
 
 (** U(q)^T U(q) = (|q|^2)^2 I and det U(q) = (|q|^2)^3, over any commutative ring, by [ring] against the
@@ -129,6 +130,60 @@ Theorem C12_selected_rmsd_is_minimal :
                    (run_mirror && negb superimposable = true -> kleb best (c_rmsd_m c) = true)) cs.
 Proof. exact @b787_best_is_min. Qed.
 
+(** ---- the atom-map search: _plausible_atom_orderings(algorithm="permutative") (Model/KabschPerm.v) ---- *)
+(** Every candidate ordering the generator yields is a permutation of 0..n-1 that maps each reference atom
+    to a concern atom carrying the same label (element/mass hash): whatever ordering B787 finally returns,
+    elements match atom by atom.  For any distance matrices and tolerances. *)
+Theorem C12_candidates_are_label_preserving_permutations :
+  forall (K : Type) (KO : Ops K) (KD : DivOps K) (rr cc : nat -> nat -> K) (atol rtol : K) ref cur L,
+  plausible_orderings rr cc atol rtol ref cur = Ok L ->
+  forall ord, In ord L ->
+    length ord = length ref /\ NoDup ord /\
+    forall j, (j < length ref)%nat -> (nth j ord O < length cur)%nat /\ nth (nth j ord O) cur O = nth j ref O.
+Proof. exact @candidates_are_label_preserving_permutations. Qed.
+
+(** If the concern molecule is a copy of the reference with atoms shuffled (true ordering o: same labels,
+    same interatomic distances — which a rigid motion preserves, next theorem), the true ordering is among
+    the candidates, so the search cannot miss it.  [close_refl]: |x - x| <= atol + rtol |x|. *)
+Theorem C12_true_ordering_is_a_candidate :
+  forall (K : Type) (KO : Ops K) (KD : DivOps K) (rr cc : nat -> nat -> K) (atol rtol : K),
+  (forall x : K, kleb (kabs (ksub x x)) (kadd atol (kmul rtol (kabs x))) = true) ->
+  forall ref cur L (o : list nat),
+  plausible_orderings rr cc atol rtol ref cur = Ok L ->
+  length o = length ref -> NoDup o ->
+  (forall j, (j < length ref)%nat -> (nth j o O < length cur)%nat /\ nth (nth j o O) cur O = nth j ref O) ->
+  (forall a b, (a < length ref)%nat -> (b < length ref)%nat -> cc (nth a o O) (nth b o O) = rr a b) ->
+  In o L.
+Proof. exact @true_ordering_is_a_candidate. Qed.
+
+Theorem C12_rigid_motion_preserves_distances :
+  forall (K : Type) (KO : Ops K) (KR : RingLaws K) (M : mat3 K) (t u v : vec3 K),
+  mmul M (mtrans M) = mid ->
+  nsq (vsub (vadd (vmat u M) t) (vadd (vmat v M) t)) = nsq (vsub u v).
+Proof. exact @rigid_motion_preserves_distances. Qed.
+
+(** ---- the translated kabsch_align (Gen/KabschAlign.v, regenerated from the source on every run) ---- *)
+(** For weight=None (w = ones) the translation of the straight-line arithmetic of kabsch_align is the
+    hand-written model the theorems above are about: a swapped operand or transposed product in the source
+    changes the generated term and breaks this proof. *)
+Theorem C12_translated_kabsch_align_is_model :
+  forall (K : Type) (KO : Ops K) (KD : DivOps K) (KR : RingLaws K) eigtop atol rtol (Rg Cg : list (vec3 K)),
+  length Rg = length Cg ->
+  gen_kabsch_align eigtop atol rtol (repeat k1 (length Rg)) Rg Cg = kabsch_align eigtop atol rtol Rg Cg.
+Proof. exact @gen_kabsch_align_is_model. Qed.
+
+(** Weighted alignment (sw = sqrt(w)): the returned rotation is proper and the reported residual is the
+    minimum over all proper rotations of sum_k w_k |r'_k - c'_k . M|^2, r', c' centred on the plain centroids. *)
+Theorem C12_weighted_kabsch_align_optimal :
+  forall eigtop atol rtol (sw : list R) (Rg Cg : list (vec3 R)),
+  eigtop_ok eigtop (weighted_F sw Rg Cg) -> length Rg = length Cg -> length sw = length Rg ->
+  allclose atol rtol Rg Cg = false ->
+  let o := gen_kabsch_align eigtop atol rtol sw Rg Cg in
+  proper (k_rot o) /\
+  forall M, proper M ->
+    (k_ssd o <= residual_rot (scale_rows sw (centred (length Rg) Rg)) (scale_rows sw (centred (length Rg) Cg)) M)%R.
+Proof. exact weighted_kabsch_align_optimal. Qed.
+
 (** ---- non-vacuity ---- *)
 (* reference (1,0,0),(0,2,0),(0,0,3) against itself: cov = diag(1,4,9), F = diag(14,-12,-6,4);
    eigh returns w = (-12,-6,4,14) and the permutation matrix V below; the top eigenvector is (1,0,0,0), U = I *)
@@ -155,6 +210,19 @@ Example C12_ex_select :
   /\ b787_select false false true 0%Q 100%Q [{| c_rmsd := 3#1; c_rmsd_m := 2#1 |}; {| c_rmsd := 1#1; c_rmsd_m := 0#1 |}] = Ok (1#1, 1%nat, false).
 Proof. split; vm_compute; reflexivity. Qed.
 
+(* the tolerance hypothesis of C12_true_ordering_is_a_candidate holds for the code's atol = 1.0, rtol = 1e-5 *)
+Example C12_ex_close_refl :
+  forall x : R, @kleb R RDiv (@kabs R RDiv (x - x)%R) (1 + (1 / 100000) * @kabs R RDiv x)%R = true.
+Proof.
+  intros x. cbn [kleb kabs RDiv]. destruct (Rle_dec _ _) as [|N]; [reflexivity|]. exfalso. apply N.
+  replace (x - x)%R with 0%R by ring. rewrite Rabs_R0. pose proof (Rabs_pos x). lra.
+Qed.
+(* three atoms C,H,H against the shuffled copy H,C,H: with atol = 1.0 both assignments of the two H atoms pass the filter *)
+Example C12_ex_orderings :
+  plausible_orderings (mat_fun 3 [0; 1; 3; 1; 0; 2; 3; 2; 0]%Q) (mat_fun 3 [0; 1; 2; 1; 0; 3; 2; 3; 0]%Q) 1%Q (1 # 100000)%Q
+                      [0; 1; 1]%nat [1; 0; 1]%nat = Ok [[1; 0; 2]; [1; 2; 0]]%nat.
+Proof. vm_compute. reflexivity. Qed.
+
 Print Assumptions C12_U_gram.
 Print Assumptions C12_U_det.
 Print Assumptions C12_U_proper.
@@ -169,3 +237,8 @@ Print Assumptions C12_reported_rmsd_is_applied_rmsd.
 Print Assumptions C12_recovers_rigid_copy.
 Print Assumptions C12_mirror_only_on_request.
 Print Assumptions C12_selected_rmsd_is_minimal.
+Print Assumptions C12_candidates_are_label_preserving_permutations.
+Print Assumptions C12_true_ordering_is_a_candidate.
+Print Assumptions C12_rigid_motion_preserves_distances.
+Print Assumptions C12_translated_kabsch_align_is_model.
+Print Assumptions C12_weighted_kabsch_align_optimal.
